@@ -1,8 +1,8 @@
-(* C15: a rejected single-element call leaves the model unchanged (outside finding 4 and the open case) *)
+(* C15: a rejected single-element call leaves the model unchanged (outside finding 4) *)
 From Coq Require Import List Arith Bool Lia.
 From TT Require Import Base.HeapTypes Model.Heap Model.HeapTriggers Spec.ModelWF
   Proofs.C15.HeapLemmas Proofs.C15.Links Proofs.C15.Tree Proofs.C15.Frames Proofs.C15.LinkOps Proofs.C15.Values
-  Proofs.C15.Dfs Proofs.C15.AttrCalls Proofs.C15.LinkCalls Proofs.C15.SetDoc Proofs.C15.Step.
+  Proofs.C15.Dfs Proofs.C15.AttrCalls Proofs.C15.LinkCalls Proofs.C15.SetDoc Proofs.C15.SetDocTree Proofs.C15.Step.
 Import ListNotations.
 
 Ltac crush_err :=
@@ -90,10 +90,10 @@ Proof.
     + intros [= <- _]. eapply set_region_err; eauto.
 Qed.
 
-Theorem step_atomic h c e : WF h -> single_element c = true -> trigger h c <> Some 4 -> open_case h c = false ->
+Theorem step_atomic h c e : WF h -> single_element c = true -> trigger h c <> Some 4 ->
   snd (step h c) = ORaised e -> fst (step h c) = h.
 Proof.
-  intros HW S T O. unfold step. destruct (call_ok h c) eqn:OK; [|reflexivity]. cbn [fst snd].
+  intros HW S T. unfold step. destruct (call_ok h c) eqn:OK; [|reflexivity]. cbn [fst snd].
   destruct (exec h c) as [h1|h1 e1] eqn:E; [discriminate|]. intros _. simpl.
   unfold trigger in T. rewrite OK in T. cbn [negb] in T.
   destruct c; cbn [exec call_ok single_element] in *; try discriminate S; unfold node_ok, doc_ok in OK;
@@ -102,9 +102,10 @@ Proof.
   - eapply push_child_err; eauto.
   - eapply remove_err; eauto.
   - eapply remove_child_err; eauto.
-  - eapply set_doc_err; [| |exact E].
-    + intros ->. destruct (t_set_doc_none_children h s); [congruence|reflexivity].
-    + intro N. destruct d; [|congruence]. simpl in O. apply is_some_false. exact O.
+  - destruct d as [d|]; [eapply set_doc_some_err; eauto|].
+    eapply set_doc_err; [| |exact E].
+    + intros _. destruct (t_set_doc_none_children h s); [congruence|reflexivity].
+    + intro N. congruence.
   - eapply set_region_err; eauto.
   - eapply put_region_err; eauto.
   - eapply remove_region_err; eauto.
